@@ -33,7 +33,7 @@ func (c c19cfg) String() string {
 }
 
 var c19forms = []string{"func(*VM)", "func(*VM) Value", "func(*VM, []Value)", "func(*VM, []Value) Value", "func(*VM, []Value) []Value", "func(*VM, []Value, ...Value) []Value"}
-var c19ctxs = []string{"statement", "operand of 1 + f()*2", "argument of another native", "multi-assign", "argument of a script function", "in a loop with live locals"}
+var c19ctxs = []string{"statement", "operand of 1 + f()*2", "argument of another native", "multi-assign", "argument of a script function", "in a loop with live locals", "return f() inside a function literal nested in a function with another result count"}
 
 // c19exec runs one configuration; returns what the native saw, the script output, and the expectation for both.
 func c19exec(c c19cfg) (got, want string) {
@@ -149,6 +149,20 @@ func c19exec(c c19cfg) (got, want string) {
 	case 4:
 		body = "\tfmt.Println(id(" + call + "))\n"
 		wantOut = "101\n"
+	case 6:
+		var rs, w, rt []string
+		for i := 0; i < rets; i++ {
+			rs = append(rs, fmt.Sprintf("r%d", i))
+			w = append(w, fmt.Sprint(101+i))
+			rt = append(rt, "int")
+		}
+		sig := " int"
+		if rets > 1 {
+			sig = " (" + strings.Join(rt, ", ") + ")"
+		}
+		// the enclosing function (Main) has no results, the literal has `rets`
+		body = "\tg := func()" + sig + " {\n\t\treturn " + call + "\n\t}\n\t" + strings.Join(rs, ", ") + " := g()\n\tfmt.Println(" + strings.Join(rs, ", ") + ")\n"
+		wantOut = strings.Join(w, " ") + "\n"
 	case 5:
 		// the two calls pass different integers (the int-typed/constant arguments get i*1000 added)
 		var largs []string
@@ -227,18 +241,21 @@ func c19configs() []c19cfg {
 					if form != 5 && tail > 0 {
 						continue
 					}
-					for ctx := 0; ctx < 6; ctx++ {
+					for ctx := 0; ctx < 7; ctx++ {
 						need := 0
 						switch ctx {
 						case 1, 2, 4, 5:
 							need = 1
-						case 3:
+						case 3, 6:
 							need = 1
 						}
 						if rets < need {
 							continue
 						}
 						for _, typed := range []bool{false, true} {
+							if ctx == 6 && typed {
+								continue // a function literal does not capture the enclosing function's locals
+							}
 							out = append(out, c19cfg{form, arity, rets, tail, ctx, typed})
 						}
 					}
@@ -612,6 +629,80 @@ func c19reentry(r *report.Run) {
 	}
 }
 
+// (f) a script function redefined with another signature (as the REPL and live reload do) and then invoked
+// through Call / Func with the new parameter list
+func c19redefine(r *report.Run) {
+	defs := []struct {
+		sig, body string
+		args      []int
+		want      string
+	}{
+		{"(a int, b int) int", "return a*10 + b", []int{1, 2}, "12"},
+		{"(a int, b ...int) int", "return a*10 + len(b)", []int{1, 2, 3}, "12"},
+		{"(a int, b ...int) int", "return a*10 + len(b)", []int{4}, "40"},
+		{"(a int) int", "return a * 7", []int{3}, "21"},
+		{"(a ...int) int", "return len(a)", []int{1, 2, 3, 4}, "4"},
+		{"(a int, b int, c int) (int, int)", "return a + b, c", []int{1, 2, 3}, "3 3"},
+		{"() int", "return 9", nil, "9"},
+	}
+	for i, first := range defs {
+		for j, second := range defs {
+			if i == j {
+				continue
+			}
+			for _, via := range []string{"Eval", "Load"} {
+				m := goat.New()
+				imports := map[string]string{}
+				mk := func(d struct {
+					sig, body string
+					args      []int
+					want      string
+				}) string {
+					return "func S" + d.sig + " {\n\t" + d.body + "\n}\n"
+				}
+				var r1, r2 goat.Result
+				name := "main.S"
+				if via == "Eval" {
+					r1 = m.Eval(nil, mk(first), goatlang.WithEvalImports(imports))
+					r2 = m.Eval(nil, mk(second), goatlang.WithEvalImports(imports))
+				} else {
+					r1 = m.Load(goat.FS(map[string]string{"q/q.go": "package q\n\n" + mk(first)}), "q")
+					r2 = m.Load(goat.FS(map[string]string{"q/q.go": "package q\n\n" + mk(second)}), "q")
+					name = "q.S"
+				}
+				key := fmt.Sprintf("func S%s redefined as func S%s (%s), then called with %v", first.sig, second.sig, via, second.args)
+				r.Eval(1)
+				r.Nontrivial(key)
+				if r1.Failed() || r2.Failed() {
+					r.Fail(&report.Case{Kind: "redefine", Key: key, Want: "both definitions are accepted", Got: r1.String() + " / " + r2.String()})
+					m.Close()
+					continue
+				}
+				var params []goatlang.Value
+				for _, a := range second.args {
+					params = append(params, goatlang.Int(a))
+				}
+				nret := strings.Count(second.want, " ") + 1
+				res := m.Call(name, nret, params...)
+				got := res.Status()
+				if !res.Failed() {
+					var g []string
+					for _, v := range res.Rets {
+						g = append(g, v.String())
+					}
+					got = strings.Join(g, " ")
+				} else {
+					got += " " + firstLine(fmt.Sprint(res.Err))
+				}
+				if got != second.want {
+					r.Fail(&report.Case{Kind: "redefine", Key: key, Want: second.want, Got: got})
+				}
+				m.Close()
+			}
+		}
+	}
+}
+
 func c19run(r *report.Run) {
 	r.Rule("(a) every constructor over its domain (all 256 values for the 8-bit types, boundary sets otherwise, the C13 string pool, slices of 0..4 elements, maps of 4 key kinds, Wrap/Error/Nil) read back through every matching accessor and through VM.Set/Get; (b) all six NewFunc forms x arity 0..6 x results 0..4 x variadic tail 0..3 x 6 call contexts x {constant, typed} arguments; (c) VM.Call/VM.Func on script functions with 0..6 parameters x 0..4 results x every requested count 0..declared+1 x {right, one fewer, one more} arguments; (d) string/error/script/run-time panics at nesting depth 1..3, also inside sort comparators; non-trivial = every configuration except arity 0 statement calls")
 	r.Assume("expected values are what the generator planted", "form func(*VM) can only be registered as a 0->0 function from outside the package (the VM stack is unexported)")
@@ -636,6 +727,7 @@ func c19run(r *report.Run) {
 	c19callChecks(r)
 	c19errorChecks(r)
 	c19reentry(r)
+	c19redefine(r)
 }
 
 func c19rerun(c *report.Case) (bool, string) {
@@ -658,6 +750,8 @@ func c19rerun(c *report.Case) (bool, string) {
 		c19errorChecks(rr)
 	case "reentry":
 		c19reentry(rr)
+	case "redefine":
+		c19redefine(rr)
 	}
 	return rr.Violations() > 0, fmt.Sprintf("%d failing cases in the %s family", rr.Violations(), c.Kind)
 }
